@@ -376,15 +376,25 @@ def run_lines(ctx, exe, lines, tag, timeout=3000):
     return ip, out, rc, err
 
 
+DRIFTS = []
+
+
 def judge(ctx, exes, ip, out, tag, cfg="CvbrTrace.cfg"):
-    """validate one trace file; on a rejection re-run that execution alone (R4), report, and carry on behind it"""
+    """validate one trace file.  First with Strict = TRUE (property clauses and model conformance in one pass); if that rejects,
+    with Strict = FALSE to tell a property violation from model drift.  On a property rejection re-run that execution alone (R4),
+    report, and carry on behind it"""
+    acc, rej, tr = vf.validate_seq(ctx, "CvbrTrace", "CvbrTraceStrict.cfg", out, "C05 %s" % tag, heap="3g", timeout=3000)
+    if acc:
+        return
+    srej = rej
     lines = open(ip).read().splitlines()
-    cur = out; base = 0; rounds = 0
+    cur = out; rounds = 0; clean = True
     while rounds < 4:
         rounds += 1
-        acc, rej, tr = vf.validate_seq(ctx, "CvbrTrace", cfg, cur, "C05 %s" % tag, heap="3g", timeout=3000)
+        acc, rej, tr = vf.validate_seq(ctx, "CvbrTrace", cfg, cur, "C05 prop %s" % tag, heap="3g", timeout=3000)
         if acc:
-            return
+            break
+        clean = False
         if rej is None or rej < 1:
             raise vf.Infra("CvbrTrace gave no rejected line for %s: %s" % (cur, tr.out[-1500:]))
         first, last, x = exec_bounds(cur, rej)
@@ -407,13 +417,15 @@ def judge(ctx, exes, ip, out, tag, cfg="CvbrTrace.cfg"):
             ctx.violation("C05 obligation rejected by CvbrTrace (%s) at line %d of %s: encoder %s ; event %s ; execution [%s]" % (
                 cfg, rej, os.path.basename(cur), json.dumps({a: cf[a] for a in cf if a != "k"}), strip_ev(ev), line[:700]), replay_src=rp)
         if last is None:
-            return
+            break
         nxt = ctx.path("rest_%s_%d.ndjson" % (tag, rounds))
         with open(cur) as f, open(nxt, "w") as g:
             for i, ln in enumerate(f, 1):
                 if i > last:
                     g.write(ln)
         cur = nxt
+    if clean:
+        DRIFTS.append((out, srej))
 
 
 def strip_ev(ev):
@@ -501,11 +513,11 @@ def run(ctx):
     for rep in range(reps):
         for h in hist:
             fast.append(gen_exec(rng, h))
-    for i in range(500 if quick else 6000):
+    for i in range(300 if quick else 6000):
         fast.append(walk_exec(rng))
-    for i in range(16 if quick else 60):
+    for i in range(10 if quick else 60):
         for q in QS:
-            fast.append(cvbr_exec(rng, q, ms=(i % 3 == 2), seconds=2.6 if quick else 4.0, switch=(i % 2 == 1)))
+            fast.append(cvbr_exec(rng, q, ms=(i % 3 == 2), seconds=2.4 if quick else 4.0, switch=(i % 2 == 1)))
     fast += boundary_execs(rng, 0)
     slow = boundary_execs(rng, 1)                      # sanitizer build, exact-size buffers
     for i in range(60 if quick else 700):
@@ -560,15 +572,9 @@ def run(ctx):
     for tag, ip, out in good:
         stats(ctx, out)
     if not ctx.violations:
-        def vals(job):
-            tag, ip, out = job
-            return job, vf.validate_seq(ctx, "CvbrTrace", "CvbrTraceStrict.cfg", out, "C05 strict %s" % tag, heap="3g", timeout=3000)
-        nd = 0
-        for (tag, ip, out), (acc, rej, tr) in vf.parallel(vals, good, nproc=12):
-            if not acc and nd < 3:
-                nd += 1
-                ctx.spec_drift("Cvbr", "the peeked reservoir does not follow Cvbr!BucketStep (or OPUS_AUTO is not Cvbr!AutoBitrate) at %s line %s: %s" % (
-                    os.path.basename(out), rej, strip_ev(vf.file_line(out, rej or 1))))
+        for out, rej in DRIFTS[:3]:
+            ctx.spec_drift("Cvbr", "the peeked reservoir does not follow Cvbr!BucketStep (or OPUS_AUTO is not Cvbr!AutoBitrate) at %s line %s: %s" % (
+                os.path.basename(out), rej, strip_ev(vf.file_line(out, rej or 1))))
     ctx.notes["thresholds"] = dict(TolC_percent=TOLC, TolS_percent=TOLS, FloorS_bps_per_channel=FLOORS, bucket="2*(frame target + 16 bit)",
                                    window="any window >= 1 s starting at a recorded point")
     ctx.notes["observed"] = OBS
